@@ -26,6 +26,8 @@ class World:
         self.C = type("C", (self.P,), {"message_template": TPL["orig:C"], "title": TITLE["orig:C"]})
         # N's own class body sets title = None, masking the title it would inherit from P
         self.N = type("N", (self.P,), {"message_template": TPL["orig:N"], "title": None})
+        # I defines nothing itself: everything is inherited from P
+        self.I = type("I", (self.P,), {})
         self.T = tf.initialization_problem
         self.t_orig = {"message_template": self.T.__dict__["message_template"], "title": self.T.__dict__["title"]}
         self.report = Report()
@@ -40,7 +42,7 @@ class World:
         self.objs = []
 
     def cls(self, c):
-        return {"P": self.P, "C": self.C, "N": self.N, "T": self.T}[c]
+        return {"P": self.P, "C": self.C, "N": self.N, "I": self.I, "T": self.T}[c]
 
     def close(self):
         # put the real tool class back whatever happened (the thing under test is report.clear, not this)
@@ -48,7 +50,7 @@ class World:
             setattr(self.T, k, v)
         if "_override_backups" in self.T.__dict__:
             delattr(self.T, "_override_backups")
-        for c in (self.P, self.C, self.N, self.T):
+        for c in (self.P, self.C, self.N, self.I, self.T):
             self.report.overridden_feedbacks.discard(c)
 
     # ---- concrete values
@@ -65,11 +67,11 @@ class World:
     def attr_token(self, c, a):
         cls = self.cls(c)
         v = getattr(cls, "message_template" if a == "template" else "title")
-        for tok in ("orig:" + c, "o1", "o2"):
+        for tok in (("o1", "o2") if c == "I" else ("orig:" + c, "o1", "o2")):
             if v == (self.tpl_value(c, tok) if a == "template" else self.title_value(c, tok)):
                 return tok
         # a value belonging to another class (e.g. restored from the wrong backup table)
-        for oc in "PCNT":
+        for oc in "PCNT":      # (I has no originals of its own)
             if v == (self.tpl_value(oc, "orig:" + oc) if a == "template" else self.title_value(oc, "orig:" + oc)):
                 return "orig:" + oc
         return "?" + repr(v)
@@ -179,7 +181,7 @@ class World:
         return {"active": [ids.get(id(o), -1) for o in r.feedback],
                 "ignored": [ids.get(id(o), -1) for o in r.ignored_feedback],
                 "objs": objs,
-                "attr": {c: {a: self.attr_token(c, a) for a in ("template", "title")} for c in "PCNT"},
+                "attr": {c: {a: self.attr_token(c, a) for a in ("template", "title")} for c in "PCNIT"},
                 "raised": raised, "fmt": "F1" if type(r.format) is self.F1 else "F2"}
 
 
